@@ -259,6 +259,8 @@ func laExec(r *core.Run, c laCase) (*core.Fail, string) {
 	var opts []tensor.FuncOpt
 	var dst *tensor.Dense
 	var dstOld []interface{}
+	var dstBuilt *atlas.Built
+	var dstSnap atlas.Snap
 	nOut := len(want.El)
 	if invalid && c.mode != "safe" {
 		return nil, "skip:no-defined-result"
@@ -277,10 +279,21 @@ func laExec(r *core.Run, c laCase) (*core.Fail, string) {
 			}
 			dst = db.T
 		}
+		if strings.HasSuffix(c.mode, ":S") {
+			// a destination that is a non-contiguous view: written correctly or refused - and whatever happens, the
+			// parent's elements between the view's stay what they were
+			db, err := atlas.Build(d, want.Shape, dstOld, "S")
+			if err != nil {
+				return nil, "skip:dest"
+			}
+			dst = db.T
+			dstBuilt = db
+			dstSnap = db.Snapshot()
+		}
 		switch c.mode {
-		case "reuse", "reuse:T":
+		case "reuse", "reuse:T", "reuse:S":
 			opts = append(opts, tensor.WithReuse(dst))
-		case "incr", "incr:T":
+		case "incr", "incr:T", "incr:S":
 			opts = append(opts, tensor.WithIncr(dst))
 		case "reuse+incr":
 			r2 := mkContig(d, want.Shape, dstOld)
@@ -369,6 +382,18 @@ func laExec(r *core.Run, c laCase) (*core.Fail, string) {
 			return core.F("operand-changed", "b", "%s changed operand b: %s (outcome %s)", what, ch, o.Class), o.Class
 		}
 	}
+	if dstBuilt != nil {
+		// frame: root cells of the destination's parent outside the view's image
+		img := map[int]bool{}
+		for _, c := range dstBuilt.View.Cell {
+			img[c] = true
+		}
+		for _, cell := range dstBuilt.ChangedCells(dstSnap) {
+			if !img[cell] {
+				return core.F("frame-violated", "dest", "%s: element %d of the destination view's parent lies outside the view and changed (outcome %s)", what, cell, o.Class), o.Class
+			}
+		}
+	}
 	if !ref.EqInts(axAfull, keepA) || !ref.EqInts(axBfull, keepB) {
 		return core.F("caller-slice-mutated", "ax", "%s changed the caller's axes slices: %v %v -> %v %v", what, keepA, keepB, axAfull, axBfull), o.Class
 	}
@@ -440,7 +465,7 @@ func runC09(r *core.Run) {
 	quick := isQuick(r)
 	maxd := 3
 	dts := ref.FC4
-	modes := []string{"safe", "reuse", "incr", "reuse+incr", "reuse:T", "incr:T"}
+	modes := []string{"safe", "reuse", "incr", "reuse+incr", "reuse:T", "incr:T", "reuse:S", "incr:S"}
 	lays := atlas.L5 // incl. Cl, the CLONE of a sliced view: strided storage that is not a view
 	vss := []string{"int", "frac"}
 	r.SetBound("dims", fmt.Sprintf("every dimension in 1..%d; rank-3 tensors for TensorMul/Dot", maxd))
